@@ -290,7 +290,11 @@ long w_nlabels; long long w_v0, w_v1; long w_prvtype;
 #define L1(t) ((struct mark_label *) (t)->labels->hh.next)
 #define NL(t) ((t)->labels == NULL ? 0u : L1(t) == NULL ? 1u : 2u)
 /* label values reach the PCF as int (pcf_add_value(type, int value, label)) */
+#ifdef C17_ANYVALUE   /* twin group of finding F-C17-1: no carve-out, the conversion check must FAIL */
+#define FITS_INT(v) 1
+#else
 #define FITS_INT(v) ((v) >= INT_MIN && (v) <= INT_MAX)
+#endif
 int c_create_type(struct pcf *pcf, struct mark_type *type)
 __CPROVER_requires(__CPROVER_is_fresh(type, sizeof(*type)) && type->type >= 0 && type->type < 100 && type->prvtype == 100 + type->type)
 __CPROVER_requires(L0(type) == NULL || (__CPROVER_is_fresh(L0(type), sizeof(struct mark_label)) && FITS_INT(L0(type)->value) &&
